@@ -105,7 +105,7 @@ pub(super) fn latest_timestamp_file(
         config
             .file_spec
             .try_list_of_files(
-                &InfixFilter::Numbrs,
+                &InfixFilter::Timstmps(fmt.clone()),
                 config.file_spec.get_suffix().as_deref(),
             )?
             .into_iter()
